@@ -3,6 +3,8 @@
 
   selftest.py determinism <ID|all> [n]   every seed twice: different process layout, worker count and PYTHONHASHSEED;
                                          event-log digests, violation signatures and choice traces must agree
+  selftest.py reverts [ID|commit ...]    sensitivity: each recorded "fix:" commit reverted in a scratch worktree
+                                         (VERIF_REPO) must make its property's quick check exit 1 again
 """
 import json
 import os
@@ -52,7 +54,7 @@ def determinism(cid, n):
     return not bad and not ea and not eb and len(a) == n
 
 
-if __name__ == "__main__":
+if __name__ == "__main__" and sys.argv[1] == "determinism":
     cmd = sys.argv[1]
     if cmd == "determinism":
         which = sys.argv[2]
@@ -63,3 +65,48 @@ if __name__ == "__main__":
         for cid in ids:
             ok = determinism(cid, n) and ok
         sys.exit(0 if ok else 1)
+
+
+def reverts():
+    """Sensitivity: every recorded fix, reverted in a scratch worktree, must make its property's check fail again."""
+    import re
+    import shutil
+    import tempfile
+    rows = []
+    for line in open(os.path.join(HERE, "known_findings.txt")):
+        m = re.match(r"fixed: property=(C\d+) ([0-9a-f]{7,})", line)
+        if m:
+            rows.append((m.group(1), m.group(2)))
+    ok = True
+    only = sys.argv[2:] if len(sys.argv) > 2 else None
+    for cid, commit in rows:
+        if only and commit not in only and cid not in only:
+            continue
+        wt = tempfile.mkdtemp(prefix="revert_%s_" % commit, dir="/tmp")
+        os.rmdir(wt)
+        subprocess.run(["git", "-C", "/repo", "worktree", "add", "-q", "--detach", wt, "HEAD"], check=True)
+        try:
+            r = subprocess.run(["git", "-C", wt, "revert", "--no-commit", commit], capture_output=True, text=True)
+            if r.returncode != 0:
+                print("%s %s: revert does not apply cleanly on HEAD (later fixes touch the same lines) - skipped" % (cid, commit))
+                continue
+            env = dict(os.environ, VERIF_REPO=wt, VERIF_WALL="40", PYTHONPATH=HERE)
+            p = subprocess.run([os.path.join(HERE, "check"), cid, "--tier", "quick"], cwd=HERE, env=env,
+                               capture_output=True, text=True)
+            sigs = re.findall(r"signature: (\S+)", p.stdout)
+            state = "DETECTED" if p.returncode == 1 else "MISSED (rc=%d)" % p.returncode
+            print("%s revert of %s: %s %s" % (cid, commit, state, sigs[:3]))
+            if p.returncode != 1:
+                ok = False
+                print(p.stdout[-600:])
+        finally:
+            subprocess.run(["git", "-C", "/repo", "worktree", "remove", "--force", wt])
+            shutil.rmtree(wt, ignore_errors=True)
+    for f in os.listdir(os.path.join(HERE, "replays")):
+        if f.endswith(".json"):
+            os.remove(os.path.join(HERE, "replays", f))
+    return ok
+
+
+if __name__ == "__main__" and sys.argv[1] == "reverts":
+    sys.exit(0 if reverts() else 1)
